@@ -156,9 +156,9 @@ const SCHEMES: &[&str] = &[
 ];
 const USERS: &[&str] = &[
     "user", "git", "", "-oProxyCommand=x", "a b", "ü", "a%40b", "us@er", "u%", "U.s_e~r-1", "a/b", "a\\b", "a?b", "a#b",
-    "[", "a\tb", "%2F", "é€😀",
+    "[", "a\tb", "%2F", "é€😀", "a%2540b", "%2525",
 ];
-const PASSWORDS: &[&str] = &["", "pw", "p:w", "p@w", "%20", "é", "p w", "p/w", "Pw.1_~-", "p?w", "p#w"];
+const PASSWORDS: &[&str] = &["", "pw", "p%2520w", "p:w", "p@w", "%20", "é", "p w", "p/w", "Pw.1_~-", "p?w", "p#w"];
 const HOSTS: &[&str] = &[
     "host", "example.com", "EXAMPLE.com", "[::1]", "[fe80::1]", "[::ffff:1.2.3.4]", "[::1", "127.0.0.1", "0x7f.1", "1.2",
     "", "ho st", "hé.com", "xn--caf-dma.com", "xn--a", "a..b", "-host", "h_st", "localhost", "x:", "c", "%41bc", "h%2Fx",
@@ -169,11 +169,11 @@ const PATHS: &[&str] = &[
     "", "/", "/path/to/repo.git", "/~user/repo", "/a b", "/a%20b", "/ü", "/..", "/a/../b", "/./a", "/%2e%2e/x", "/%2E/x",
     "//double", "/-leading", "/c:/win", "\\win\\path", "/a?q=1#f", "/a#f", "/a\tb", "/a://b", "/a:b", "/.", "/a/.", "/a/..",
     "/repo.git/", "/A/B_c~d-e.f", "/é€/😀", "/%", "/%zz", "/a|b", "/a^b", "/a\"b", "/a<b>", "/a`b", "/a{b}", "/ ", "/x ",
-    "/C|/x", "/c:", "/~", "/a//b", "/\\a", "/;x", "/a=b&c", "/a@b", "/a'b", "/(a)", "/a*b", "/a+b", "/a,b", "/$a", "/!a",
+    "/C|/x", "/c:", "/~", "/a//b", "/\\a", "/;x", "/a=b&c", "/a@b", "/a'b", "/(a)", "/a*b", "/a+b", "/a,b", "/$a", "/!a", "/a%2520b", "/%252e%252e/x", "/%2541",
 ];
 const SCP_PATHS: &[&str] = &[
     "path", "/abs/repo.git", "~/x", "~user/x", "-x", "a:b", "", "repo.git", "a b", "ü", "/", ":", "a//b", "a\\b", "22/x",
-    "a?b#c", "a\tb", " a", "%20", "é€😀", "/a:/b", "\\\\h\\p", "/~/x", "..", ".", "a@b", "[a]",
+    "a?b#c", "a\tb", " a", "%20", "a%2520b", "é€😀", "/a:/b", "\\\\h\\p", "/~/x", "..", ".", "a@b", "[a]",
 ];
 const LOCALS: &[&str] = &[
     "/abs/path", "rel/path", "./a:b", "../x", "a", "~", "", "-", "/", ".", "..", "~/x", "/a b", "/ü", "a\\b", "/a:b",
